@@ -258,7 +258,8 @@ impl Gen {
                     0..=3 => "list".to_string(),
                     4 => format!("issue:cur:p/{child}"),
                     5 => { self.nkeys += 1; format!("issue:n{}", self.nkeys) }
-                    6 => format!("issue:cur:p/{other}"),
+                    // (no certificate request for another child's key: a CSR needs the private key)
+                    6 => { self.nkeys += 1; format!("issue:n{}:0:{}", self.nkeys, if child == "c" { 1 } else { 2 }) }
                     7 => format!("revoke:cur:p/{child}"),
                     8 => format!("revoke:cur:p/{other}"),
                     _ => match self.r.below(4) { 0 => "response".to_string(), 1 => format!("issue:n{}:9", self.nkeys),
